@@ -256,7 +256,7 @@ func (cx *Ctx) c18Provenance(r *Report, set hev, where string, oracle bool) {
 		if t.Op == "call" {
 			n := t.Name
 			allowed := n == "sdk.Context.BlockHeader" || n == "sdk.Context.BlockTime" || strings.HasPrefix(n, "random/types.") || strings.HasPrefix(n, "random/keeper.Keeper.GetOracleRandRequest") || strings.HasPrefix(n, "big.") || strings.HasPrefix(n, "time.Time.Unix") ||
-				strings.HasPrefix(n, "codec.") || strings.HasPrefix(n, "out:codec.") || strings.HasPrefix(n, "cosmos-db.Iterator.") || strings.HasPrefix(n, "random/keeper.Keeper.IterateRandomRequestQueueByHeight") || strings.HasPrefix(n, "storetypes.") || n == "addr" || n == "str" || strings.HasPrefix(n, "hex.") || strings.HasPrefix(n, "gjson.") || strings.HasPrefix(n, "proto.Header") || strings.HasPrefix(n, "types.Header") || n == "varargs" || strings.HasPrefix(n, "bytes.HexBytes")
+				strings.HasPrefix(n, "codec.") || strings.HasPrefix(n, "out:codec.") || strings.HasPrefix(n, "cosmos-db.Iterator.") || strings.HasPrefix(n, "random/keeper.Keeper.IterateRandomRequestQueueByHeight") || strings.HasPrefix(n, "storetypes.") || n == "addr" || n == "str" || strings.HasPrefix(n, "hex.") || strings.HasPrefix(n, "gjson.") || strings.HasPrefix(n, "proto.Header") || strings.HasPrefix(n, "types.Header") || n == "varargs" || n == "append" || n == "len" || n == "cap" || strings.HasPrefix(n, "bytes.HexBytes")
 			if !allowed && bad == "" {
 				bad = n
 			}
